@@ -213,15 +213,15 @@ def tmpl_programs(res, tier, rnd):
     ts = C.tlc_prints(r["out"], "TMPL")
     res.add(states=r["distinct"], transitions=r["generated"], template_programs_enumerated=len(ts))
     ts.sort(key=json.dumps)
-    # stratified by structural class: what matters to a work-list analysis is a node that is reached from
-    # several dependents at different nesting depths, so half of the programs have a nested instantiation
-    # T_j<T_m<A>> whose outer template is also instantiated by a template that is independent of the nest
+    # stratified by structural class: what matters to a work-list analysis is a node that is reached along
+    # several dependency paths of different length (see tmpl_class): half of the programs are of the
+    # "reconvergent" class, the rest covers nested+shared / nested / shared / flat
     cls = {}
     for t in ts:
         cls.setdefault(tmpl_class(t), []).append(t)
     n = 160 if tier == "thorough" else 24
     pick = []
-    share = {"nested+shared": n // 2, "nested": n // 6, "shared": n // 6}
+    share = {"reconvergent": n // 2, "nested+shared": n // 6, "nested": n // 8, "shared": n // 8}
     for c, k in share.items():
         pick += rnd.sample(cls.get(c, []), min(k, len(cls.get(c, []))))
     rest = [t for t in ts if t not in pick]
@@ -237,6 +237,12 @@ def tmpl_class(t):
             insts.setdefault(x, set()).add(i)
     nested = [(i, o) for i, o in enumerate(t, 1) if o["k"] == "nest"]
     shared = any(len(v) >= 2 for v in insts.values())
+    # re-convergent dependency paths of different length: in T_i { T_j<T_m<A>> } the inner template T_m itself
+    # instantiates the outer template T_j, so the nested instantiation depends on T_j directly and through its
+    # argument; and some third template instantiates T_j too (it can settle T_j's result early or late)
+    for i, o in nested:
+        if o["j"] != o["m"] and o["m"] in insts.get(o["j"], ()) and insts.get(o["j"], set()) - {i, o["m"]}:
+            return "reconvergent"
     if nested and any(len(insts.get(o["j"], ())) >= 2 for _, o in nested):
         return "nested+shared"
     if nested:
@@ -377,7 +383,7 @@ def run(res, tier, validate, report):
     allcases, per = [], {}
     for k, (name, fam) in enumerate(tm, 1):
         os_ = list(orders.get(k, []))
-        if tmpl_class(fam["tmpl"]) == "nested+shared":
+        if tmpl_class(fam["tmpl"]) in ("reconvergent", "nested+shared"):
             # the class where the relative order of independent templates decides who is popped first:
             # every order of the definitions, not a sample
             os_ = os_[:2] + [o for o in perm_orders(fam) if o not in os_[:2]]
